@@ -143,7 +143,15 @@ fn judge(
     forwarder: Option<SocketAddr>,
     user_questions: &[Question],
     res: &RunResult,
+    settled: bool,
 ) -> Vec<(&'static str, String)> {
+    // `settled` (runs with a faulty exchange, which the property's quantifier does
+    // not range over): a preferred address only counts as held if it was already
+    // held when the *previous* exchange started, i.e. before the resolver began
+    // the step that ended in this contact.  (With a faulty reply to the
+    // preferred-family lookup, the fallback lookup's referral can deliver glue
+    // of the preferred family into the cache as a side effect, just before the
+    // contact; whether that counts as "holding" is left open.)
     let mut out = Vec::new();
     let by_addr = hosts_by_addr(u);
     // addresses held locally (hints zone)
@@ -181,11 +189,16 @@ fn judge(
                 // no preferred-family address of this host may be held
                 if let Some(hosts) = by_addr.get(&ip) {
                     for h in hosts {
-                        let held_pref = e
-                            .held_addrs
-                            .iter()
-                            .chain(local.iter())
-                            .any(|(n, a)| n == h && is_pref(mode, a));
+                        let before: Vec<(DomainName, IpAddr)> = if settled {
+                            match e.index.checked_sub(1).and_then(|i| res.log.get(i)) {
+                                Some(prev) if prev.step == e.step => prev.held_addrs.clone(),
+                                _ => Vec::new(),
+                            }
+                        } else {
+                            e.held_addrs.clone()
+                        };
+                        let held_pref = local.iter().any(|(n, a)| n == h && is_pref(mode, a))
+                            || e.held_addrs.iter().any(|x| x.0 == *h && is_pref(mode, &x.1) && before.contains(x));
                         if held_pref {
                             out.push((
                                 "preferred-address-ignored",
@@ -236,9 +249,14 @@ fn judge(
     out
 }
 
-fn replay_json(p: &GenParams, mode: ProtocolMode, port: u16, fwd: bool, steps: &[Step], choices: &[usize]) -> Value {
+fn fault_menu() -> Vec<Fault> {
+    vec![Fault::Honest, Fault::Silent, Fault::Empty, Fault::Rcode(2)]
+}
+
+fn replay_json(p: &GenParams, mode: ProtocolMode, port: u16, fwd: bool, steps: &[Step], with_faults: bool, choices: &[usize]) -> Value {
     json!({
         "kind": "family",
+        "with_faults": with_faults,
         "universe": {
             "depth": p.depth,
             "styles": p.styles.iter().map(|s| format!("{s:?}")).collect::<Vec<_>>(),
@@ -307,14 +325,17 @@ fn run_item(tier: Tier, params: &[GenParams], i: usize, acc: &mut JsonAcc) {
                     if acc.trace {
                         let (p2, s2) = (p.clone(), steps.clone());
                         stats.pre = Some(Box::new(move |prefix: &[usize]| {
-                            println!("EXEC {}", replay_json(&p2, mode, port, fwd, &s2, prefix));
+                            println!("EXEC {}", replay_json(&p2, mode, port, fwd, &s2, false, prefix));
                             use std::io::Write;
                             let _ = std::io::stdout().flush();
                         }));
                     }
+                    let in_fault_run = std::cell::Cell::new(false);
+                    let trace = acc.trace;
                     let mut visit = |res: &RunResult, choices: &[usize]| {
                         let forwarder = if fwd { Some(fwd_for(p, port)) } else { None };
-                        let findings = judge(&u, mode, port, forwarder, &user_qs, res);
+                        let faulty = res.log.iter().any(|e| e.fault != Fault::Honest);
+                        let findings = judge(&u, mode, port, forwarder, &user_qs, res, faulty);
                         let v4 = res.log.iter().filter(|e| e.addr.is_ipv4()).count();
                         let v6 = res.log.len() - v4;
                         let answered = res.asks.iter().filter(|a| matches!(a.outcome, Outcome::Ok(_))).count();
@@ -339,7 +360,7 @@ fn run_item(tier: Tier, params: &[GenParams], i: usize, acc: &mut JsonAcc) {
                             acc.violate(
                                 clause,
                                 format!("universe [{}] mode {mode} port {port} fwd={fwd}: {msg} :: log {}", p.describe(), show_log(&res.log)),
-                                replay_json(p, mode, port, fwd, steps, choices),
+                                replay_json(p, mode, port, fwd, steps, in_fault_run.get(), choices),
                                 None,
                             );
                         }
@@ -352,6 +373,32 @@ fn run_item(tier: Tier, params: &[GenParams], i: usize, acc: &mut JsonAcc) {
                         }
                     };
                     explore(&spec, 0, 2048, &mut stats, &mut visit);
+                    // one faulty exchange (no answer / empty NOERROR / SERVFAIL) anywhere in the
+                    // resolution, where nameserver addresses have to be looked up: what a failed
+                    // lookup leaves behind must not change which family is contacted afterwards
+                    let glueless = p.styles.iter().any(|s| matches!(s, NsStyle::Sibling | NsStyle::SiblingApexNs));
+                    if !fwd && hi <= 1 && port == 53 && glueless {
+                        let mut fspec = spec.clone();
+                        fspec.faults = fault_menu();
+                        fspec.fault_window = 12;
+                        in_fault_run.set(true);
+                        let mut fstats = ExploreStats::default();
+                        if trace {
+                            let (p2, s2) = (p.clone(), steps.clone());
+                            fstats.pre = Some(Box::new(move |prefix: &[usize]| {
+                                println!("EXEC {}", replay_json(&p2, mode, port, fwd, &s2, true, prefix));
+                                use std::io::Write;
+                                let _ = std::io::stdout().flush();
+                            }));
+                        }
+                        explore(&fspec, 1, 4096, &mut fstats, &mut visit);
+                        acc.count("executions", fstats.executions);
+                        acc.count("executions_with_one_faulty_exchange", fstats.faulted_executions);
+                        acc.count("exchanges", fstats.exchanges + fstats.choice_points);
+                        if fstats.capped {
+                            acc.capped = true;
+                        }
+                    }
                     acc.count("executions", stats.executions);
                     acc.count("exchanges", stats.exchanges + stats.choice_points);
                     if stats.capped {
@@ -374,7 +421,7 @@ pub fn run(ctx: &Ctx) -> i32 {
     report.distinct_nontrivial = c("nontrivial");
     procpar::into_report(acc, crashes, &mut report);
     report.rule = "every universe of depth 1..2 in which the root, every level and the sibling zone are served by v4-only / v6-only / dual hosts (every assignment) x nameserver naming style per level (addresses from hints, glue, the parent zone, a nested lookup) x additional data on/off x 5 question histories (incl. cache left by an earlier question and a re-resolution after expiry) x 4 protocol modes x ports {53,5353,1,65535} x forwarding on/off x every candidate order; non-trivial = executions with at least one exchange in a universe that has a non-v4-only host (measured); states = distinct (universe, mode, port, exchange sequence)".into();
-    report.bounds = json!({"universes": params.len(), "deviation_bound": 0});
+    report.bounds = json!({"universes": params.len(), "deviation_bound": 0, "extension_beyond_the_quantifier": "glue-less universes, first two histories: every single faulty exchange from {no answer, empty NOERROR, SERVFAIL} (deviation bound 1), judged with the `settled` reading of `holds`"});
     report.assumptions = vec![
         "`holds an address` = an unexpired A/AAAA record for the host name in the cache at the moment the exchange starts (recorded from inside the transport hook) or in the root hints zone".into(),
         "one address per family per host".into(),
@@ -391,13 +438,18 @@ fn replay_inner(ctx: &Ctx, v: &Value) -> i32 {
     let fwd = v["forwarding"].as_bool().unwrap_or(false);
     let steps: Vec<Step> = v["steps"].as_array().cloned().unwrap_or_default().iter().filter_map(step_from_json).collect();
     let choices: Vec<usize> = v["choices"].as_array().cloned().unwrap_or_default().iter().filter_map(|c| c.as_u64().map(|c| c as usize)).collect();
-    let spec = make_spec(&u, &p, mode, port, fwd, &steps);
+    let mut spec = make_spec(&u, &p, mode, port, fwd, &steps);
+    if v["with_faults"].as_bool().unwrap_or(false) {
+        spec.faults = fault_menu();
+        spec.fault_window = 12;
+    }
     let res = run_once(&spec, &choices);
     let user_qs: Vec<Question> = steps.iter().filter_map(|s| match s { Step::Ask(q) => Some(q.clone()), _ => None }).collect();
     println!("universe: {}", u.describe());
     println!("mode {mode} port {port} forwarding {fwd}");
     println!("exchanges: {}", show_log(&res.log));
-    let findings = judge(&u, mode, port, if fwd { Some(fwd_for(&p, port)) } else { None }, &user_qs, &res);
+    let faulty = res.log.iter().any(|e| e.fault != Fault::Honest);
+    let findings = judge(&u, mode, port, if fwd { Some(fwd_for(&p, port)) } else { None }, &user_qs, &res, faulty);
     for (c, m) in &findings {
         println!("  finding [{c}]: {m}");
     }
